@@ -82,6 +82,9 @@ func TestC09_Replicas(t *testing.T) {
 		if c.PrivateChecks > 0 {
 			labels = append(labels, "replicas-saw-different-mempool-traffic")
 		}
+		if c.Grafts > 0 {
+			labels = append(labels, "one-mempool-saw-a-delivered-signature-over-another-payload")
+		}
 		if c.Restarts > 0 {
 			labels = append(labels, "replica-restarted")
 		}
